@@ -205,6 +205,7 @@ func c16Render(e *twig.Engine, name string, ctxJSON []byte) (o c16Out, pan inter
 //	            the other in this process: each must render like its own source
 func runC16(cases string, res *Result) {
 	c16CompileAfterChange(res)
+	c16FilesOfTemplatesRegisteredUnderOtherNames(cases, res)
 	twig.SetDebugWriter(io.Discard) // SetDebug(true) on one engine switches the package-wide logger on
 	dir := filepath.Join(filepath.Dir(cases), "files")
 	os.RemoveAll(dir)
